@@ -213,3 +213,12 @@ seed('c02-append-min-duration', 'C02', [(CEST, "mpath[i]->steps * siC_->getPropa
 seed('c02-sampler-2high', 'C02', [(RVC, "rng_.uniformReal(bounds.low[i], bounds.high[i])", "rng_.uniformReal(bounds.low[i], 2.0 * bounds.high[i])")], 'R02e')
 seed('c02-unchecked-swap', 'C02', [(CSI, "            if (isValid(temp2))\n                std::swap(temp1, temp2);\n            else", "            std::swap(temp1, temp2);\n            if (isValid(temp2))\n                ;\n            else")], 'R02d')
 seed('c02-n-duration-local', 'C02', [(CEST, "                path->append(mpath[i]->state, mpath[i]->control, mpath[i]->steps * siC_->getPropagationStepSize());", "            {\n                const double dur = mpath[i]->steps * siC_->getPropagationStepSize();\n                path->append(mpath[i]->state, mpath[i]->control, dur);\n            }")], None)
+
+# ---- C17 -------------------------------------------------------------------------------------------------------
+PSC = 'src/ompl/geometric/src/PathSimplifier.cpp'
+seed('c17-reduce-no-check', 'C17', [(PSC, "            if (si->checkMotion(states[p1], states[p2]))\n            {\n                if (freeStates_)\n                    for (int j = p1 + 1; j < p2; ++j)", "            if (p1 != p2)\n            {\n                if (freeStates_)\n                    for (int j = p1 + 1; j < p2; ++j)")], 'R17a')
+seed('c17-free-erase-mismatch', 'C17', [(PSC, "                states.erase(states.begin() + p1 + 1, states.begin() + p2);", "                states.erase(states.begin() + p1 + 1, states.begin() + p2 + 1);", 0)], 'R17b')
+seed('c17-simplify-true', 'C17', [(PSC, "    return valid || path.check();", "    return true;")], 'R17d')
+seed('c17-rope-no-cost-test', 'C17', [(PSC, "                if (obj_->isCostBetterThan(shortcutCost, alongPath))\n                {", "                if (true)\n                {")], 'R17c')
+seed('c17-rope-cost-swapped', 'C17', [(PSC, "                if (obj_->isCostBetterThan(shortcutCost, alongPath))\n                {", "                if (obj_->isCostBetterThan(alongPath, shortcutCost))\n                {")], 'R17c')
+seed('c17-n-check-hoisted', 'C17', [(PSC, "            if (si->checkMotion(states[p1], states[p2]))\n            {\n                if (freeStates_)\n                    for (int j = p1 + 1; j < p2; ++j)", "            const bool shortcutOk = si->checkMotion(states[p1], states[p2]);\n            if (shortcutOk)\n            {\n                if (freeStates_)\n                    for (int j = p1 + 1; j < p2; ++j)")], None)
